@@ -36,42 +36,104 @@ def amp(i):
     return 0.1 * (i + 1)
 
 
-class Ref:
-    """index -> (alive, tag)"""
+SQ_R, SQ_PHI = 0.3, 0.2  # tag states of the phase-space simulators are displaced AND squeezed
+MIX = (0.6, 0.4)  # beamsplitter with a complex phase: mixing two tagged modes leaves them correlated with a complex <a_i^ a_j>
 
-    def __init__(self):
+
+class Ref:
+    """index -> alive, plus the Gaussian state (hbar = 2, xxpp over all indices ever created; dead modes are vacuum).
+    rich = displaced squeezed tags and the Mix event (phase-space simulators); otherwise coherent tags (Fock)."""
+
+    def __init__(self, rich=False):
+        self.rich = rich
         self.alive = [True] * INIT_N
-        self.tag = [0.0] * INIT_N
+        self.mu = np.zeros(2 * INIT_N)
+        self.V = np.eye(2 * INIT_N)
 
     def copy(self):
         r = Ref.__new__(Ref)
-        r.alive, r.tag = list(self.alive), list(self.tag)
+        r.rich, r.alive, r.mu, r.V = self.rich, list(self.alive), self.mu.copy(), self.V.copy()
         return r
+
+    @property
+    def n(self):
+        return len(self.alive)
 
     @property
     def active(self):
         return [i for i, a in enumerate(self.alive) if a]
 
+    @property
+    def tag(self):
+        """<x_i>/2 of every index (the coherent amplitude for plain tags)"""
+        return [self.mu[i] / 2 for i in range(self.n)]
+
     def key(self):
-        return tuple((a, round(t, 6)) for a, t in zip(self.alive, self.tag))
+        return (tuple(self.alive), (np.round(self.mu, 6) + 0.0).tobytes(), (np.round(self.V, 6) + 0.0).tobytes())
+
+    def _ix(self, modes):
+        return list(modes) + [m + self.n for m in modes]
+
+    def _reset(self, i):
+        ix = self._ix([i])
+        self.mu[ix] = 0
+        self.V[ix, :] = 0
+        self.V[:, ix] = 0
+        self.V[np.ix_(ix, ix)] = np.eye(2)
+
+    def _symp(self, S, modes):
+        ix = self._ix(modes)
+        self.mu[ix] = S @ self.mu[ix]
+        self.V[ix, :] = S @ self.V[ix, :]
+        self.V[:, ix] = self.V[:, ix] @ S.T
+
+    def reduced(self, modes):
+        ix = self._ix(modes)
+        return self.mu[ix], self.V[np.ix_(ix, ix)]
 
     def apply(self, ev):
         k = ev[0]
         if k == "New":
+            n0, n1 = self.n, self.n + ev[1]
+            mu, V = np.zeros(2 * n1), np.eye(2 * n1)
+            old = list(range(n0)) + [n1 + i for i in range(n0)]
+            mu[old] = self.mu
+            V[np.ix_(old, old)] = self.V
+            self.mu, self.V = mu, V
             self.alive += [True] * ev[1]
-            self.tag += [0.0] * ev[1]
         elif k == "Del":
             for i in ev[1]:
                 self.alive[i] = False
-                self.tag[i] = 0.0
+                self._reset(i)
         elif k == "Tag":
-            self.tag[ev[1]] = amp(ev[1])
+            i = ev[1]
+            self._reset(i)
+            if self.rich:
+                from mc.ref import phase as ph
+
+                mu, V = ph.displaced_squeezed(amp(i), SQ_R, SQ_PHI)
+                ix = self._ix([i])
+                self.mu[ix] = mu
+                self.V[np.ix_(ix, ix)] = V
+            else:
+                self.mu[i] = 2 * amp(i)
         elif k == "Swap":
-            i, j = ev[1], ev[2]
-            # BS(pi/2, 0): a_i -> -a_j, a_j -> a_i
-            self.tag[i], self.tag[j] = -self.tag[j], self.tag[i]
+            from mc.ref import phase as ph
+
+            self._symp(ph.beamsplitter(np.pi / 2, 0.0), [ev[1], ev[2]])
+        elif k == "Mix":
+            from mc.ref import phase as ph
+
+            self._symp(ph.beamsplitter(*MIX), [ev[1], ev[2]])
         elif k in ("Meas", "MeasF"):
-            self.tag[ev[1]] = 0.0
+            if self.rich:
+                # homodyne x = 0 on mode i: Gaussian conditioning of the rest, measured mode to vacuum
+                from mc.ref import phase as ph
+
+                g = ph.GState(self.n, self.mu, self.V).condition_homodyne(ev[1], 0.0, 0.0)
+                self.mu, self.V = g.mu, g.V
+            else:
+                self._reset(ev[1])
 
 
 def enabled(ref, pending, segs, cfg):
@@ -99,6 +161,8 @@ def enabled(ref, pending, segs, cfg):
             for b in range(len(act)):
                 if a != b:
                     evs.append(("Swap", act[a], act[b]))
+                if a < b and ref.rich:
+                    evs.append(("Mix", act[a], act[b]))
         dead = [i for i, a in enumerate(ref.alive) if not a]
         for i in dead[:2]:
             evs.append(("BadUseInt", i))
@@ -118,6 +182,7 @@ class Impl:
 
     def __init__(self, backend):
         self.backend = backend
+        self.rich = backend != "fock"
         opts = {"cutoff_dim": CUTOFF} if backend == "fock" else None
         self.eng = sf.Engine(backend, backend_options=opts)
         self.prog = sf.Program(INIT_N)
@@ -146,7 +211,12 @@ class Impl:
                 self.last_deleted = refs[0]
                 self._do(lambda: ops.Del | (refs if len(refs) > 1 else refs[0]))
             elif k == "Tag":
-                self._do(lambda: ops.Coherent(amp(ev[1]), 0.0) | rr[ev[1]])
+                if self.rich:
+                    self._do(lambda: ops.DisplacedSqueezed(amp(ev[1]), 0.0, SQ_R, SQ_PHI) | rr[ev[1]])
+                else:
+                    self._do(lambda: ops.Coherent(amp(ev[1]), 0.0) | rr[ev[1]])
+            elif k == "Mix":
+                self._do(lambda: ops.BSgate(*MIX) | (rr[ev[1]], rr[ev[2]]))
             elif k == "Swap":
                 self._do(lambda: ops.BSgate(np.pi / 2, 0.0) | (rr[ev[1]], rr[ev[2]]))
             elif k == "Meas":
@@ -201,7 +271,25 @@ def check_state(impl, ref, backend, st=None):
     names = list(st.mode_names.values()) if isinstance(st.mode_names, dict) else list(st.mode_names)
     if names != [f"q[{i}]" for i in act]:
         bad.append(("mode-names", f"state.mode_names = {names}, active indices {act}"))
-    tol = 1e-9 if backend != "fock" else 2e-3
+    if backend != "fock":
+        # the whole Gaussian state of the active modes: every mode carries its own data AND its own correlations
+        mu_r, V_r = ref.reduced(act)
+        if backend == "gaussian":
+            mu, V = np.array(st.means()), np.array(st.cov())
+        else:
+            kk = len(act)
+            ix = [2 * j for j in range(kk)] + [2 * j + 1 for j in range(kk)]
+            mu, V = np.real(np.array(st.means())[0][ix]), np.real(np.array(st.covs())[0][np.ix_(ix, ix)])
+        # post-selected homodyne projects on a finitely squeezed state (eps = 2e-4): conditional updates agree to ~1e-6
+        tol = 1e-5
+        d1, d2 = float(np.max(np.abs(mu - mu_r))), float(np.max(np.abs(V - V_r)))
+        if d1 > tol:
+            k = int(np.argmax(np.abs(mu - mu_r))) % len(act)
+            bad.append(("mode-data", f"mode k={k} (index {act[k]}) has means differing from its own data by {d1:.3g}"))
+        elif d2 > tol:
+            bad.append(("mode-correlations", f"covariance of the active modes {act} differs from the modes' own data by {d2:.3g}"))
+        return bad
+    tol = 2e-3
     for k, i in enumerate(act):
         with warnings.catch_warnings():
             warnings.simplefilter("ignore")
@@ -282,7 +370,7 @@ def step(impl, ref, pending, segs, ev, backend, res, case):
 
 
 def rebuild(backend, hist):
-    impl, ref, pending, segs = Impl(backend), Ref(), (), 0
+    impl, ref, pending, segs = Impl(backend), Ref(backend != "fock"), (), 0
     dummy = Res()
     for ev in hist:
         ok, ref, pending, segs = step(impl, ref, pending, segs, ev, backend, dummy, {})
@@ -334,7 +422,7 @@ def run(ctx):
     total_states = 0
     per = {}
     for backend, (cfg, depth) in plans.items():
-        seen = {state_key(backend, Ref(), (), 0, False)}
+        seen = {state_key(backend, Ref(backend != "fock"), (), 0, False)}
         frontier = [()]
         complete = 0
         levels = []
